@@ -129,7 +129,7 @@ impl Prop for C19 {
             if !name.starts_with("feature:") {
                 let o = compile_rasn(&s, &Cfg::default());
                 if o.ok_clean().is_none() {
-                    return Err(format!("designed base `{name}` does not compile cleanly: {}", o.brief()));
+                    return Err(format!("COMPILER: designed base `{name}` does not compile cleanly under the default configuration: {}", o.brief()));
                 }
             }
         }
